@@ -2,9 +2,15 @@
 lengths: (R1) the range parser has no reachable panic site; (R2) every push /
 skip of the parser agrees with the RFC terms for the suffix / closed / open
 forms (refinement over path relations, zone solver); (R3) integers are parsed
-only from digit-checked substrings; (R4) rejection rows; (R5) the dispatch in
+only from digit-checked substrings - by `FromStr` behind a digits-only guard, or by a
+hand-written digit loop / try_fold that is proven to be exactly 1*DIGIT (starts at
+0, every turn establishes '0'..='9' for the one byte it takes and leaves acc*10+d
+without wrap-around, rejects only for empty / non-digit / overflow, accepts only
+with the input exhausted); (R4) rejection rows; (R5) the dispatch in
 `serve` (ignore -> 200 of 0..L, unsatisfiable -> 416 `bytes */L`, one -> 206,
-several -> multipart iff estimate < L with a constant in the accepted family);
+several -> multipart iff estimate < L with a constant in the accepted family; the
+estimate is a checked fold or an explicit loop over the whole resolved list that
+gives up only on overflow or on a sound early stop against L);
 (R6) request order is preserved (no reordering call on the range list).
 Does not decide: OWS tokenisation beyond the parser's own trimming; that the
 tokeniser accepts exactly the RFC grammar."""
